@@ -78,6 +78,20 @@ static int encode_mem(struct instr *instrc, int m) {
 
   if (!instrc->mem_disp)
     return NA;
+  // nasm-style rewriting of a base-less index with scale 1 or 2 ([1*r] -> [r],
+  // [2*r] -> [r+1*r]) must happen before the special cases of the new base
+  // register are examined below (SIB byte for rsp/r12, zero displacement for
+  // rbp/r13); get_reg() then sees an ordinary base register
+  if ((instrc->assembly_opt & NASM_SIB_NO_BASE) &&
+      instrc->opd[m].reg == reg_none && instrc->opd[m].index != reg_none) {
+    if (instrc->sib_disp == SIB) {
+      instrc->opd[m].reg = instrc->opd[m].index;
+      instrc->opd[m].index = reg_none;
+    } else if (instrc->sib_disp == SIB2) {
+      instrc->opd[m].reg = instrc->opd[m].index;
+      instrc->sib_disp = SIB;
+    }
+  }
   if ((instrc->opd[m].reg & BIT_MASK) == BIT_32 ||
       (instrc->opd[m].index & BIT_MASK) == BIT_32)
     instrc->hex.is_67H = true;
